@@ -63,3 +63,32 @@ Fixpoint fpo_walk (fuel : nat) (mem : Z -> option Z) (in_stack : Z -> bool) (loo
         end
       else []
   end.
+
+(* ---- well-formed all-FPO stacks (the C04 question for STACK WIN FPO) ----
+   an activation = (the FPO record of its function, the parameter size fill_symbol gives its frame, its return address);
+   [acts] lists the activations from the frame being unwound outwards.  Frame layout (walker.rs docs):
+   [arguments pushed for the callee = gcps][locals][saved registers][return address]. *)
+Definition act := (win_info * option Z * Z)%type.
+Definition psz (ps : option Z) : Z := match ps with Some k => k | None => 0 end.
+
+Fixpoint fpo_layout (mem : Z -> option Z) (in_stack : Z -> bool) (lookup : Z -> option (win_info * option Z))
+                    (ctx : bool) (gcps eip esp : Z) (acts : list act) : Prop :=
+  match acts with
+  | [] => True
+  | (i, ps, ra) :: rest =>
+      let F := w_locals i + w_saved i + gcps in
+      lookup eip = Some (i, ps) /\ (ctx = false -> in_stack esp = true) /\
+      win_frame_size i gcps = Some F /\ 0 <= F /\
+      mem (esp + F) = Some ra /\ 4096 <= ra < 2 ^ 32 /\ esp + F + 4 < 2 ^ 32 /\
+      (ctx = true -> ra <> eip) /\          (* the context frame has no leftover return address on top *)
+      fpo_layout mem in_stack lookup false (psz ps) ra (esp + F + 4) rest
+  end.
+
+(* the generated chain: caller k resumes at ra_k with the stack pointer just above the return address *)
+Fixpoint fpo_chain (gcps esp ebp : Z) (acts : list act) : list xregs :=
+  match acts with
+  | [] => []
+  | (i, ps, ra) :: rest =>
+      let sp' := esp + (w_locals i + w_saved i + gcps) + 4 in
+      mkX ra sp' ebp :: fpo_chain (psz ps) sp' ebp rest
+  end.
